@@ -393,6 +393,114 @@ func c21(c *core.Ctx) {
 		}
 	}
 
+	// C21.onesection: what is live and what is persisted change together.
+	rOne := c.Rule("C21.onesection", "a function that changes both the live pattern table and the persisted pattern model changes them inside one critical section of the settings lock: the lock is write-held at both writes and is not released between them. Two concurrent registrations of one pattern otherwise leave the live table with one caller's setting and settings.json with the other's, and the swamp changes its configuration at the next restart", 2)
+	{
+		_, sst := p.StructOf(pkgSettings, "settings")
+		liveF := core.StructFields(sst)["patterns"]
+		modelStructF := core.StructFields(sst)["model"]
+		var modelPatF *types.Var
+		if modelStructF != nil {
+			if mst, ok := modelStructF.Type().Underlying().(*types.Struct); ok {
+				modelPatF = core.StructFields(mst)["Patterns"]
+			} else if pt, ok := modelStructF.Type().(*types.Pointer); ok {
+				if mst, ok := pt.Elem().Underlying().(*types.Struct); ok {
+					modelPatF = core.StructFields(mst)["Patterns"]
+				}
+			}
+		}
+		if liveF == nil || modelPatF == nil {
+			rOne.Bad(pkgSettings+".settings:tables", token.NoPos, "cannot identify the live pattern table and the persisted pattern model (rule needs review)")
+		} else {
+			n := 0
+			for _, f := range p.FuncsIn(pkgSettings) {
+				if f.Decl.Body == nil {
+					continue
+				}
+				info := f.Info()
+				var liveW, modelW []ast.Node
+				for _, a := range core.Accesses(info, f.Decl.Body, map[*types.Var]bool{liveF: true, modelPatF: true}, true) {
+					if !a.Write || a.Form == "assign" {
+						continue // wholesale (re)initialisation at load time is not an update of one pattern
+					}
+					if a.Field == liveF {
+						liveW = append(liveW, a.Node)
+					} else {
+						modelW = append(modelW, a.Node)
+					}
+				}
+				if len(liveW) == 0 || len(modelW) == 0 {
+					continue
+				}
+				n++
+				c.Touch(f)
+				fl := core.NewFlow(p, info, f.Decl.Body)
+				lk := fl.LockAnalysis(nil)
+				// statement of the main body that contains a node (the model write may sit in an immediately invoked literal)
+				top := func(nd ast.Node) ast.Node {
+					var out ast.Node = nd
+					for _, st := range core.PathTo(f.Decl.Body, nd) {
+						if _, ok := fl.Locate(st); ok {
+							out = st
+							break
+						}
+					}
+					return out
+				}
+				lockKey := ""
+				okHeld := true
+				for _, w := range append(append([]ast.Node{}, liveW...), modelW...) {
+					held, ok := lk.HeldAtNode(top(w))
+					found := false
+					if ok {
+						for k, m := range held {
+							if m == 2 && (lockKey == "" || lockKey == k) && !strings.Contains(k, "odel") {
+								lockKey, found = k, true
+							}
+						}
+					}
+					if !found {
+						okHeld = false
+					}
+				}
+				released := false
+				if okHeld {
+					core.Calls(f.Decl.Body, false, func(call *ast.CallExpr) {
+						fo := core.Callee(info, call)
+						if fo == nil || fo.Name() != "Unlock" || core.ExprStr(core.RecvExpr(call)) != lockKey || underDefer(f.Decl.Body, call) {
+							return
+						}
+						lu, ok := fl.Locate(call)
+						if !ok {
+							return
+						}
+						for _, a := range liveW {
+							for _, b := range modelW {
+								la, ok1 := fl.Locate(top(a))
+								lb, ok2 := fl.Locate(top(b))
+								if !ok1 || !ok2 {
+									continue
+								}
+								r1, _ := fl.CanReach(la, nil, nil, core.ContainsNode(call))
+								r2, _ := fl.CanReach(lu, nil, nil, core.ContainsNode(top(b)))
+								r3, _ := fl.CanReach(lb, nil, nil, core.ContainsNode(call))
+								r4, _ := fl.CanReach(lu, nil, nil, core.ContainsNode(top(a)))
+								if (r1 && r2) || (r3 && r4) {
+									released = true
+								}
+							}
+						}
+					})
+				}
+				rOne.Check(okHeld && !released, f.Key+":live-and-persisted-in-one-section", f.Decl.Pos(), "both writes under one acquisition of "+lockKey,
+					"the live pattern table and the persisted model are not changed in one critical section (lock held at both writes="+b2s(okHeld)+", released in between="+b2s(released)+"): concurrent registrations of one pattern can leave the live setting and settings.json disagreeing, and the swamp's configuration flips at the next restart")
+			}
+			if n == 0 {
+				rOne.Bad(pkgSettings+":updaters", token.NoPos, "no function updates both the live table and the persisted model")
+			}
+		}
+	}
+
 	// C21.persist
 	rPer := c.Rule("C21.persist", "in-memory flag, idle timeout and write interval given to RegisterPattern are stored in the persisted PatternModel, and loadSettingsFromFilesystem restores each into the live setting from the same model field", 6)
 	reg := c.Fn(pkgSettings + ".settings.RegisterPattern")
